@@ -3,6 +3,7 @@ package checks
 import (
 	"bytes"
 	"fmt"
+	"math/rand"
 
 	"github.com/cosmos/iavl"
 
@@ -179,6 +180,70 @@ func checkFastCoherence(e *v1x.Env, universe [][]byte) {
 	}
 }
 
+// labelCoincidence replaces the planned operations by the pattern in which a stale index label can
+// come to name the latest version again: a session with the index enabled commits up to L (label L);
+// a session with the index DISABLED commits a further versions, rolls back b versions below L
+// (LoadVersionForOverwriting or DeleteVersionsFrom+reload) and commits different content up to
+// exactly L (or beyond / short of it); the store is reopened with the index enabled and read.
+func labelCoincidence(rng *rand.Rand, pl *v1x.Plan) {
+	u := pl.Universe
+	if len(u) == 0 {
+		return
+	}
+	vc := 0
+	var ops []v1x.Op
+	writes := func(n int) {
+		for i := 0; i < n; i++ {
+			k := u[rng.Intn(len(u))]
+			if rng.Intn(4) == 0 {
+				ops = append(ops, v1x.Op{Kind: "rm", K: k})
+			} else {
+				vc++
+				ops = append(ops, v1x.Op{Kind: "set", K: k, V: []byte(fmt.Sprintf("c%d", vc))})
+			}
+		}
+	}
+	commits := func(n int) {
+		for i := 0; i < n; i++ {
+			writes(1 + rng.Intn(3))
+			ops = append(ops, v1x.Op{Kind: "save"})
+		}
+	}
+	cfgOn, cfgOff := pl.Cfg, pl.Cfg
+	cfgOn.Fast, cfgOff.Fast = true, false
+	cfgOn.NoLoad, cfgOff.NoLoad = false, false
+	pl.Cfg.Fast, pl.Cfg.NoLoad = true, false
+	first := pl.Cfg.Initial
+	if first == 0 {
+		first = 1
+	}
+	l := 2 + rng.Intn(4) // number of versions committed by the enabled session
+	commits(l)
+	latest := first + int64(l) - 1 // = L
+	a := rng.Intn(3)
+	b := 1 + rng.Intn(l-1)
+	off := cfgOff
+	ops = append(ops, v1x.Op{Kind: "reopen", Cfg: &off})
+	commits(a)
+	target := latest - int64(b)
+	if rng.Intn(2) == 0 {
+		ops = append(ops, v1x.Op{Kind: "lfo", N: target})
+	} else {
+		ops = append(ops, v1x.Op{Kind: "delfrom", N: target})
+	}
+	// back up to exactly L in most cases
+	again := b + []int{0, 0, 0, 1, -1}[rng.Intn(5)]
+	if again < 0 {
+		again = 0
+	}
+	commits(again)
+	on := cfgOn
+	ops = append(ops, v1x.Op{Kind: "reopen", Cfg: &on})
+	writes(2)
+	ops = append(ops, v1x.Op{Kind: "save"})
+	pl.Ops = ops
+}
+
 func init() {
 	fw.Register(&fw.Check{
 		ID:    "C07",
@@ -186,7 +251,7 @@ func init() {
 		Cases: func(tier string) int { return tierN(tier, 1000, 60000) },
 		Rule: "case = one history (12-50 ops quick, up to 120 thorough) in which EVERY (re)open independently chooses fast index on/off and which version to load (latest or older), interleaved with writes, removals (incl. written-and-removed inside one version), commits, Rollback, LoadVersion on the live handle, LoadVersionForOverwriting, DeleteVersionsFrom+reload, pruning, redo of an existing version. " +
 			"After every step in a session with the index enabled: Get vs tree-walk GetWithIndex for every probe key on the working tree (incl. uncommitted changes) and on the latest and older versions; MutableTree.Iterator (both directions) and Iterate vs tree-walk IterateRange; GetVersioned vs GetImmutable(v).GetWithIndex; after every commit/open with the index enabled the raw 'f' entries decoded by D must equal the model's latest pairs and the label must name the latest version. In sessions with the index disabled the same comparisons run (they must trivially agree) and the model read battery guards against both paths being wrong together. " +
-			"Every 5th case uses its first handle without an initial Load(): a prefix of 3-6 operations writes to the fresh tree, then issues LoadVersion on the store that still has no version (nothing is loaded, the working tree is kept), with or without a Rollback after it, and the planned history follows. distinct = hash(config, ops); non-trivial = >=2 commits, >=1 session with the index enabled and >=1 of {reopen with a different setting, load of an older version, rollback-to-version, prune}.",
+			"Every 10th case is the label-coincidence pattern instead (enabled session commits to L; a session with the index disabled commits further, rolls back below L and commits different content up to L again; reopened enabled). Every 5th case uses its first handle without an initial Load(): a prefix of 3-6 operations writes to the fresh tree, then issues LoadVersion on the store that still has no version (nothing is loaded, the working tree is kept), with or without a Rollback after it, and the planned history follows. distinct = hash(config, ops); non-trivial = >=2 commits, >=1 session with the index enabled and >=1 of {reopen with a different setting, load of an older version, rollback-to-version, prune}.",
 		Assumptions: []string{"tree-walk reads (GetWithIndex, IterateRange) are the reference for indexed reads; the model M guards against both being wrong together", "decoder D for the raw index audit"},
 		Run: func(c *fw.Ctx) {
 			w := map[string]int{"set": 36, "rm": 16, "save": 20, "rollback": 4, "reopen": 10, "load": 5, "delto": 4, "lfo": 4, "delfrom": 2, "redo": 2}
@@ -197,6 +262,9 @@ func init() {
 			}
 			pl := v1x.MakePlan(c.Rng, p)
 			v1x.LazyPrefix(pl, c.Index)
+			if c.Index%10 == 7 {
+				labelCoincidence(c.Rng, pl)
+			}
 			c.Res.Digest = fw.DigestOf(pl.Cfg, pl.Summary(1000))
 			if c.Index < 2 {
 				c.Res.Sample = pl.Summary(60)
